@@ -22,8 +22,7 @@ ML = ['inLicenseList']
 LEX_FUNCS = ['scan', 'hasMore', 'parseToken', 'readRegex', 'read', 'skipWhitespace', 'readOperator', 'readID', 'readDocumentRef', 'readLicenseRef',
              'readLicense', 'normalizeLicense', 'licenseLookup', 'deprecatedLicenseLookup', 'activeLicense', 'deprecatedLicense', 'exceptionLicense', 'inLicenseList']
 LEX_ID_ASSERTS = ['error-only-for-unknown-id', 'unknown-id-rejected', 'token-role', 'exception-token-iff-exception-id', 'token-equals-reference', 'only-suffix-stripped',
-                  'plus-folded-into-or-later', 'or-later-rewritten-to-plus', 'list-spelling-active', 'unread-input-preserved', 'index-in-range',
-                  'error-cites-lexeme-and-offset', 'error-index-at-lexeme']
+                  'plus-folded-into-or-later', 'or-later-rewritten-to-plus', 'list-spelling-active', 'unread-input-preserved', 'index-in-range']
 
 
 def g_lex(tier, seed, **kw):
@@ -36,12 +35,12 @@ def g_lex(tier, seed, **kw):
               symbolic='all bytes of the buffer', asserts=LEX_ID_ASSERTS, **kw)]
     rj = [[p, w, m, c] for p in (0, 2) for w in 'DL' for m in (0, 1, 3, 6) for c in (0, 1, 2)]
     gs.append(grp('L-LEX/ref', 'VH_lexRef', rj, cost=1, bound='DocumentRef-/LicenseRef- followed by m in {0,1,3,6} id characters', symbolic='all other bytes',
-                  asserts=['missing-id-rejected', 'missing-id-offset', 'ref-accepted', 'ref-id-verbatim', 'unread-input-preserved'], **kw))
+                  asserts=['missing-id-rejected', 'ref-accepted', 'ref-id-verbatim', 'unread-input-preserved'], **kw))
     oj = [[p, k, c] for p in (0, 1, 2) for k in range(7) for c in (0, 1, 2)]
     gs.append(grp('L-LEX/operator', 'VH_lexOp', oj, cost=1, bound='each operator at index p in {0,1,2} followed by 0-2 bytes', symbolic='bytes before and after',
                   asserts=['operator-accepted', 'plus-after-space-rejected', 'token-equals-reference', 'unread-input-preserved'], **kw))
     gs.append(grp('L-LEX/stray', 'VH_lexOther', [[p, c] for p in (0, 1, 2) for c in (0, 1, 2)], cost=1, bound='a byte that starts no lexeme', symbolic='all bytes',
-                  asserts=['stray-byte-rejected', 'no-token-on-error'], **kw))
+                  asserts=['stray-byte-rejected'], **kw))
     gs.append(grp('L-LEX/spaces', 'VH_lexSkip', [[n, p] for n in range(0, 6) for p in range(0, n + 1)], cost=1, bound='buffers of <= 5 bytes', symbolic='all bytes',
                   asserts=['index-in-range', 'buffer-unchanged'], **kw))
     return gs
@@ -154,14 +153,14 @@ def c02(tier, seed):
         for pb in '01':
             for ea, eb in excs:
                 jobs.append(['L', pa, ea, 'L', pb, eb])
-    gs = [grp('L-MATCH/license-license', 'VH_match', jobs, merge=M, cost=30,
+    gs = [grp('L-MATCH/license-license', 'VH_match', jobs, merge=M, whole_table=True, cost=30,
               bound='all ordered pairs of the %s ids a term can carry (active + deprecated), each plain or with +, exception none / same / different (2 seed-chosen exception ids)' % 'listed',
               symbolic='two ids (choice variables over the whole lists)',
               asserts=['valid-terms-accepted', 'match-iff-documented', 'match-symmetric', 'match-reflexive'])]
     rj = [['R', '0', '-', 'R', '0', '-']]
     for p in '01':
         rj += [['L', p, '-', 'R', '0', '-'], ['R', '0', '-', 'L', p, '-'], ['L', p, e1, 'R', '0', '-']]
-    gs.append(grp('L-MATCH/refs', 'VH_match', rj, merge=M, cost=3,
+    gs.append(grp('L-MATCH/refs', 'VH_match', rj, merge=M, whole_table=True, cost=3,
                   bound='7 LicenseRef / DocumentRef:LicenseRef texts against each other and against every license id',
                   symbolic='reference text (choice variable), license id (choice variable)',
                   asserts=['valid-terms-accepted', 'match-iff-documented', 'match-symmetric', 'match-reflexive']))
@@ -191,10 +190,10 @@ def c08(tier, seed):
             jobs.append([pair, ctx, 'valid', '0', e1, '-'])
         jobs.append([pair, 'paren', 'term', '0', '-', '-'])
         jobs.append([pair, 'andparen', 'term', '1', '-', '-'])
-    gs.append(grp('spellings', 'VH_spell', jobs, merge=M, cost=40,
+    gs.append(grp('spellings', 'VH_spell', jobs, merge=M, whole_table=True, cost=40,
                   bound='X over all listed ids, both spellings valid; Y over all listed ids with/without +, with/without exception; contexts bare, (..), .. AND MIT, (MIT AND ..), MIT OR ..',
                   symbolic='ids X and Y (choice variables over the whole lists)', asserts=['same-validity', 'spellings-interchangeable']))
-    gs.append(grp('both-valid', 'VH_bothValid', [['plus'], ['only']], merge=M, cost=5,
+    gs.append(grp('both-valid', 'VH_bothValid', [['plus'], ['only']], merge=M, whole_table=True, cost=5,
                   bound='every active id', symbolic='id (choice variable)', asserts=['both-spellings-valid']))
     return gs
 
@@ -238,11 +237,11 @@ def c09(tier, seed):
 
 
 def c11(tier, seed):
-    return [grp('reach', 'VH_reach', [['0'], ['1']], merge=M, cost=30, bound='X+ against Y / Y+, X and Y over all listed ids',
+    return [grp('reach', 'VH_reach', [['0'], ['1']], merge=M, whole_table=True, cost=30, bound='X+ against Y / Y+, X and Y over all listed ids',
                 symbolic='ids X, Y', asserts=['plus-stays-in-family', 'plus-reaches-iff-later', 'valid-terms-accepted']),
             grp('table-well-formed', 'VH_tableWellFormed', [[]], cost=2, bound='all pairs of positions of the shipped family table',
                 symbolic='two table positions', asserts=['entry-listed', 'entry-at-one-position', 'family-one-key', 'group-one-version', 'groups-ascending']),
-            grp('table-lookup', 'VH_tableLookup', [[]], merge=M, cost=30, bound='all pairs of table positions through Satisfies',
+            grp('table-lookup', 'VH_tableLookup', [[]], merge=M, whole_table=True, cost=30, bound='all pairs of table positions through Satisfies',
                 symbolic='two table positions', asserts=['entry-at-own-position', 'valid-terms-accepted'])]
 
 
